@@ -104,7 +104,10 @@ Definition C07_known_ingester_races : list kpair :=
 
 Definition C07_known_mgr_writes : list kwrite :=
   [("cancels[]", ("cmafIngesterMgr.startIngester", "W:handler:[]"));
-   ("ingesters[]", ("cmafIngesterMgr.NewCmafIngester", "W:handler:[]"))].
+   ("ingesters[]", ("cmafIngesterMgr.NewCmafIngester", "W:handler:[]"));
+   (* with proposed_fixes/C07-ingester-locks.diff: the same two writes, inside the manager's mutex *)
+   ("cancels[]", ("cmafIngesterMgr.setCancel", "W:handler:[L:mu]"));
+   ("ingesters[]", ("cmafIngesterMgr.addIngester", "W:handler:[L:mu]"))].
 
 Theorem C07_lockset_ingester :
   races_known Access.cmafIngesterMgr C07_known_mgr_races = true /\
